@@ -132,7 +132,7 @@ func ProcessSearchRequest(ctx *fasthttp.RequestCtx, myid int64) {
 		return
 	}
 
-	if simpleNode == nil && scrollRecord == nil {
+	if simpleNode == nil && (scrollRecord == nil || scrollRecord.Results == nil) {
 		// we construct a "match_all" node
 		simpleNode, _ = query.GetMatchAllASTNode(qid, nil)
 	}
